@@ -6,7 +6,7 @@ Import ListNotations.
 From PV Require Import Yanny.Bytes Yanny.BytesFacts Yanny.Types Yanny.Parse Yanny.Render
   Yanny.TokenFacts Yanny.RowFacts Yanny.TypeFacts Yanny.DocFacts Yanny.LayoutFacts Yanny.ScanFacts Yanny.FileFacts
   Yanny.RoundTrip Yanny.LayoutFile Yanny.LayoutRow Yanny.LayoutFile2 Yanny.Interleave
-  Yanny.TypedefLayout Yanny.Skeleton Yanny.StructLayout C02.Model.
+  Yanny.TypedefLayout Yanny.Skeleton Yanny.StructLayout Yanny.EnumLayout C02.Model.
 Open Scope N_scope.
 
 (* a data line of a well-formed table means the same under any letter case of the table name *)
@@ -100,7 +100,7 @@ Qed.
 
 Lemma example2_skeleton : skel_ok ex_doc ex_tws ex2_skel.
 Proof.
-  split; [reflexivity|]. split; [|split; [|reflexivity]].
+  split; [reflexivity|]. split; [|split; [|constructor]].
   - split.
     + constructor; [|constructor]. split; [now left|now left].
     + intros t [<-|[]]. reflexivity.
@@ -122,7 +122,62 @@ Qed.
 
 Lemma example2_reads_as_the_document :
   match sem ex_doc with
-  | Some p => parse (items_text ex2_items) = Some (with_structs p [td_text KW_STRUCT ex2_body ex2_name])
+  | Some p => parse (items_text ex2_items) = Some (with_texts p [] [td_text KW_STRUCT ex2_body ex2_name])
+  | None => False
+  end.
+Proof. vm_compute. reflexivity. Qed.
+
+
+(* ---- a third file: the enum typedef on ONE line, with blanks after the brace and after the comma, placed after the
+   struct that uses it and after the data row; the struct keeps one declaration per line, spells the array n[2] as n<2>
+   and has a lower-case trailing name:
+
+       OBJ SUCCESS {7 -1}
+       typedef struct {
+        STATUS state
+        ;  ... (see ex3_sbody for the exact blank runs)
+       } obj;
+       typedef enum { FAILURE, SUCCESS} STATUS;
+   ---- *)
+Definition ex3_enum : enumdecl := mkenum (bs "state"%string) (bs "Status"%string) [bs "FAILURE"%string; bs "SUCCESS"%string].
+Definition ex3_table : table :=
+  mktable (bs "Obj"%string) [mkcol (bs "state"%string) (TChar 7) None; mkcol (bs "n"%string) TInt (Some 2)]
+          [[Sc (STok (bs "SUCCESS"%string)); Ar [SInt 7; SInt (-1)]]].
+Definition ex3_doc : doc := mkdoc [bs "c"%string] [] [ex3_enum] [ex3_table].
+Definition ex3_tws : list (table * list bytes) := [(ex3_table, [bs "STATUS"%string; S_INT])].
+Definition ex3_ebody : bytes := ebody [SP] (e_labels ex3_enum) [[SP]] [].
+Definition ex3_sbody : bytes :=
+  lbody [NL; SP] [] (t_cols ex3_table) [bs "STATUS"%string; S_INT]
+        [ mkclay [SP] [] [NL; SP] []; mkclay [SP] (bs "<2>"%string) [SP; NL] [] ].
+Definition ex3_skel : list sk :=
+  [ SkRow (ex3_table, [Sc (STok (bs "SUCCESS"%string)); Ar [SInt 7; SInt (-1)]]);
+    SkStruct ex3_sbody (bs "obj"%string); SkEnum ex3_ebody (bs "STATUS"%string) ].
+
+Lemma example3_in_domain : doc_ok ex3_doc = true /\ map fst ex3_tws = d_tables ex3_doc.
+Proof. split; vm_compute; reflexivity. Qed.
+Lemma example3_tws_ok : tws_ok (d_enums ex3_doc) ex3_tws.
+Proof.
+  constructor; [|constructor]. cbn [fst snd ex3_table t_cols].
+  constructor; [repeat split; try reflexivity; discriminate|].
+  constructor; [repeat split; try reflexivity; discriminate|constructor].
+Qed.
+Lemma example3_enum : etd_reads ex3_enum ex3_ebody (bs "STATUS"%string).
+Proof. change (bs "STATUS"%string) with (upper (e_tname ex3_enum)). unfold ex3_ebody. apply ebody_etd_reads; reflexivity. Qed.
+Lemma example3_struct : td_reads (d_enums ex3_doc) ex3_table ex3_sbody (bs "obj"%string).
+Proof. unfold ex3_sbody. apply lbody_td_reads; try reflexivity; try discriminate. exact (Forall_inv example3_tws_ok). Qed.
+Lemma example3_skeleton : skel_ok ex3_doc ex3_tws ex3_skel.
+Proof.
+  split; [reflexivity|]. split; [|split].
+  - split.
+    + constructor; [|constructor]. split; [now left|now left].
+    + intros t [<-|[]]. reflexivity.
+  - constructor; [exact example3_struct|constructor].
+  - constructor; [exact example3_enum|constructor].
+Qed.
+Lemma example3_reads_as_the_document :
+  match sem ex3_doc with
+  | Some p => parse (items_text (map sk_item ex3_skel))
+              = Some (with_texts p [td_text KW_ENUM ex3_ebody (bs "STATUS"%string)] [td_text KW_STRUCT ex3_sbody (bs "obj"%string)])
   | None => False
   end.
 Proof. vm_compute. reflexivity. Qed.
